@@ -6,6 +6,7 @@ import (
 	"os"
 	"strconv"
 	"strings"
+	"time"
 
 	"verif/vx"
 )
@@ -31,8 +32,14 @@ func parseOps(s string) []int {
 
 // c08Sub runs a history in this (fresh) process and prints the per-position results.
 func c08Sub(args []string) {
+	if tzSub(args) {
+		return
+	}
 	pool := opPool()
 	var out []opResult
+	if ms, _ := strconv.Atoi(os.Getenv("VX_DELAY_MS")); ms > 0 {
+		time.Sleep(time.Duration(ms) * time.Millisecond)
+	}
 	for _, i := range parseOps(args[0]) {
 		out = append(out, pool[i].Run(plainEnv))
 	}
@@ -41,11 +48,27 @@ func c08Sub(args []string) {
 }
 
 func c08RunHistory(ops []int) ([]opResult, error) {
+	return c08RunHistoryEnv(ops, nil)
+}
+
+// c08Envs: the environments the solo calls are repeated in — the result is a function of the input and the options
+// only, not of the process's time zone, processor count, garbage collector pace, unrelated environment variables or
+// the second in which it runs.
+var c08Envs = [][]string{
+	nil,
+	{"TZ=Asia/Kathmandu"},
+	{"TZ=America/St_Johns", "GOMAXPROCS=1"},
+	{"GOMAXPROCS=8", "FIT_DEBUG=1", "DEBUG=1", "FITDEBUG=1"},
+	{"TZ=Pacific/Chatham", "GOGC=1"},
+	{"VX_DELAY_MS=1100"},
+}
+
+func c08RunHistoryEnv(ops []int, env []string) ([]opResult, error) {
 	s := make([]string, len(ops))
 	for i, o := range ops {
 		s[i] = strconv.Itoa(o)
 	}
-	b, err := vx.SubRun("C08", strings.Join(s, ","))
+	b, err := vx.SubRunEnv("C08", env, strings.Join(s, ","))
 	if err != nil {
 		return nil, err
 	}
@@ -63,8 +86,8 @@ func init() {
 	vx.Register(&vx.Prop{
 		ID:    "C08",
 		Level: "model_checking",
-		Rule: "explicit exploration of call histories: all sequences of length <=3 (quick) / <=4 (thorough) over a pool of 34 calls (two course files with 1500 distinct equally long names each; Decode of an activity with 1100 records and of one without any; two Encode calls with strings longer than the profile length; two calls into the checksum package alone; one Decode whose option value is shared by every execution of the call in the process; two calls that stop inside the header; near-twin calls that differ only in the seconds of a local-time zone offset; Decode of two activity streams with accumulating component fields, of a settings file, of a corrupt file, with all options; DecodeChained; CheckIntegrity; Encode of two API-built Files with union definitions in both byte orders and of a decoded File; DecodeHeaderAndFileID; Decode of a stream whose compressed timestamps precede any reference; two Encode calls that fail part-way; Encode of long arrays in a message slice; Decode of two activity files in which every held message type is fully populated; Decode with all options of unknown items whose numbers collide modulo 256); each result includes a digest of the profile tables, every history executed in its own fresh process. " +
-			"Oracle: the result at every position (canonical dump / bytes / error) equals the result of the same call made first in a fresh process; each solo call repeated in 6 fresh processes must agree with itself (Encode determinism). " +
+		Rule: "explicit exploration of call histories: all sequences of length <=3 (quick) / <=4 (thorough) over a pool of 37 calls (Encode of a File as NewFile returns it; Decode of big-endian records with narrow time and coordinate fields; Encode of an activity with 1100 records; two course files with 1500 distinct equally long names each; Decode of an activity with 1100 records and of one without any; two Encode calls with strings longer than the profile length; two calls into the checksum package alone; one Decode whose option value is shared by every execution of the call in the process; two calls that stop inside the header; near-twin calls that differ only in the seconds of a local-time zone offset; Decode of two activity streams with accumulating component fields, of a settings file, of a corrupt file, with all options; DecodeChained; CheckIntegrity; Encode of two API-built Files with union definitions in both byte orders and of a decoded File; DecodeHeaderAndFileID; Decode of a stream whose compressed timestamps precede any reference; two Encode calls that fail part-way; Encode of long arrays in a message slice; Decode of two activity files in which every held message type is fully populated; Decode with all options of unknown items whose numbers collide modulo 256); each result includes a digest of the profile tables, every history executed in its own fresh process. " +
+			"Oracle: the result at every position (canonical dump / bytes / error) equals the result of the same call made first in a fresh process; each solo call repeated in 6 fresh processes — under other time zones, processor counts, garbage-collector pace, unrelated environment variables and a second later — must agree with itself. " +
 			"states = distinct behavioural states (vector of results of all one-step extensions of a history prefix); transitions = calls executed; traces = histories",
 		Assumptions: []string{"accumulated distances of records carrying compressed_speed_distance are compared separately and attributed to the listed finding only when a shadow of the package-level accumulator predicts them exactly"},
 		Run:         runC08,
@@ -98,11 +121,20 @@ func runC08(w *vx.W) {
 	if !w.Quick() {
 		maxLen = 4
 	}
+	procsFamily(w, "C08", "encode")
+	envProbeFamily(w, "C08")
 	// solo baselines, each in its own fresh process, repeated
 	solo := make([]opResult, n)
 	for i := range pool {
 		for rep := 0; rep < 6; rep++ {
-			r, err := c08RunHistory([]int{i})
+			if rep > 0 && w.Shard != 0 {
+				break // every worker needs the baseline; the repeats under other environments run on one worker
+			}
+			env := c08Envs[rep%len(c08Envs)]
+			if rep == 5 && i%4 != 0 && !strings.HasPrefix(pool[i].Name, "Encode(") {
+				env = nil // the delayed repeat (a later second on the clock): every Encode call and every fourth other call
+			}
+			r, err := c08RunHistoryEnv([]int{i}, env)
 			if err != nil {
 				w.HarnessError("solo run of %s failed: %v", pool[i].Name, err)
 			}
@@ -112,7 +144,7 @@ func runC08(w *vx.W) {
 			}
 			if r[0].Text != solo[i].Text || fmt.Sprint(r[0].Dist) != fmt.Sprint(solo[i].Dist) {
 				if w.Shard == 0 {
-					w.Violation("nondeterministic/"+pool[i].Name, fmt.Sprintf("%s gives different results in two fresh processes: %s vs %s", pool[i].Name, diffAt(r[0].Text, solo[i].Text), ""), c08Replay{[]string{pool[i].Name}, []int{i}})
+					w.Violation("nondeterministic/"+pool[i].Name, fmt.Sprintf("%s gives different results in two fresh processes (environment of the second: %v): %s", pool[i].Name, env, diffAt(r[0].Text, solo[i].Text)), c08Replay{[]string{pool[i].Name}, []int{i}})
 				}
 			}
 		}
